@@ -105,6 +105,11 @@ class Check:
         if not cases or self.bdir is None:
             return {}, {}
         try:
+            self.bdir = C.build_native()   # cheap when cached; rebuilds if the cache entry was pruned meanwhile
+        except C.BuildError as e:
+            self.corr_broken.append(("build", "-", "-", e.what + "\n" + e.output[-1500:], ""))
+            return {}, {}
+        try:
             mo = C.run_model(cases)
         except C.BuildError as e:
             self.corr_broken.append((op, "-", "-", e.what + e.output, ""))
